@@ -12,10 +12,6 @@ theorem reBin_eq : reBin = litThen ['0', 'b'] (plus cBin) := by decide
 theorem reBin4_eq : reBin4 = litThen ['0', 'b'] (.seq (opt (litC '_')) (grouped cBin 4 4)) := by decide
 theorem reBin8_eq : reBin8 = litThen ['0', 'b'] (.seq (opt (litC '_')) (grouped cBin 8 8)) := by decide
 
-/-- What the tokenizer accepts as a number: the documented forms plus the
-radix-prefix underscore. -/
-def IsNumberImpl (w : List Char) : Prop := IsNumberDoc w ∨ IsNumberRadixUnderscore w
-
 theorem digit_facts (x : Char) (hx : isDigit x = true) :
     isLower x = false ∧ isUpper x = false ∧ ('E' == x) = false ∧ ('e' == x) = false ∧
     (x == 't') = false ∧ (x == 'f') = false := by
@@ -45,11 +41,11 @@ section
 variable {w rest : List Char} (h : WordRun w rest)
 include h
 
-/-- The eight Number patterns together accept exactly `IsNumberImpl`. -/
+/-- The eight Number patterns together accept exactly `IsNumberDoc`. -/
 theorem number_patterns_iff :
     (full reDec w rest = true ∨ full reDecGrouped w rest = true ∨ full reHex w rest = true ∨
       full reHex4 w rest = true ∨ full reHex8 w rest = true ∨ full reBin w rest = true ∨
-      full reBin4 w rest = true ∨ full reBin8 w rest = true) ↔ IsNumberImpl w := by
+      full reBin4 w rest = true ∨ full reBin8 w rest = true) ↔ IsNumberDoc w := by
   rw [full_dec h, full_decGrouped h, reHex_eq, reHex4_eq, reHex8_eq, reBin_eq, reBin4_eq, reBin8_eq,
     full_radix_plain h 'x' (by decide) cHex isHexDigit (funext cHex_mem) wo_hex,
     full_radix_grouped h 'x' (by decide) cHex isHexDigit (funext cHex_mem) wo_hex (by decide) 4 (by omega),
@@ -57,7 +53,7 @@ theorem number_patterns_iff :
     full_radix_plain h 'b' (by decide) cBin isBinDigit (funext cBin_mem) wo_bin,
     full_radix_grouped h 'b' (by decide) cBin isBinDigit (funext cBin_mem) wo_bin (by decide) 4 (by omega),
     full_radix_grouped h 'b' (by decide) cBin isBinDigit (funext cBin_mem) wo_bin (by decide) 8 (by omega)]
-  simp only [IsNumberImpl, IsNumberDoc, IsNumberRadixUnderscore, IsDecimal, IsRadixBody]
+  simp only [IsNumberDoc, IsNumberNoPrefixUnderscore, IsNumberRadixUnderscore, IsDecimal, IsRadixBody]
   constructor
   · rintro (h1 | h1 | ⟨b, hw, hp⟩ | ⟨b, hw | hw, hg⟩ | ⟨b, hw | hw, hg⟩ | ⟨b, hw, hp⟩ | ⟨b, hw | hw, hg⟩ |
       ⟨b, hw | hw, hg⟩)
@@ -96,9 +92,9 @@ one of the accepted forms, else `BadNumber` if it has the catch-all number shape
 theorem bestMatch_digit {w rest : List Char} (h : WordRun w rest) (x : Char) (t : List Char)
     (hw : w = x :: t) (hx : isDigit x = true) :
     ∃ sym, bestMatch tokTable.pats (w ++ rest) 0 none = some (w.length, some sym) ∧
-      (IsNumberImpl w → sym = "Number") ∧
-      (¬ IsNumberImpl w → isBadNumberShape w = true → sym = "BadNumber") ∧
-      (¬ IsNumberImpl w → isBadNumberShape w = false → sym = "BadWord") := by
+      (IsNumberDoc w → sym = "Number") ∧
+      (¬ IsNumberDoc w → isBadNumberShape w = true → sym = "BadNumber") ∧
+      (¬ IsNumberDoc w → isBadNumberShape w = false → sym = "BadWord") := by
   obtain ⟨sy, hb, hbest⟩ := word_run_best h
   obtain ⟨p, hfind, hsym⟩ := hbest.find
   have hfind' : tokTable.pats.find? (fun p => full p.re w rest) = some p := hfind
@@ -185,7 +181,7 @@ theorem bestMatch_digit {w rest : List Char} (h : WordRun w rest) (x : Char) (t 
       exact fun hn => absurd (hN.mp (.inr (.inr (.inr (.inr (.inr (.inr (.inr c8)))))))) hn
   have c8' := (Bool.not_eq_true _).mp c8
   rw [c8'] at hfind'
-  have hnot : ¬ IsNumberImpl w := by
+  have hnot : ¬ IsNumberDoc w := by
     intro hn
     rcases hN.mpr hn with q | q | q | q | q | q | q | q
     · exact c1 q
